@@ -134,7 +134,7 @@ theorem importFold_other (q : Quantum) (noStd : Bool) {r c : Nat} {cl : Bool}
     (h : ∀ v ∈ vs, (r, c) ∉ v.bits) :
     ∀ v ∈ bits.foldl (fun (vs : List FView) b =>
       let names : List VName := match b.2.2 with
-        | none => [.std]
+        | none => if noStd then [] else [.std]
         | some t => (viewsByTime t q).map .tv ++ (if noStd then [] else [.std])
       names.foldl (fun vs n =>
         if cl then clearInViews vs n b.1 b.2.1 else (setInViews vs n b.1 b.2.1).1) vs) vs,
@@ -145,7 +145,7 @@ theorem importFold_other (q : Quantum) (noStd : Bool) {r c : Nat} {cl : Bool}
     simp only [List.foldl_cons]
     apply ih (hne.imp id (fun hh b' hb' => hh b' (by simp [hb'])))
     generalize (match b.2.2 with
-      | none => [VName.std]
+      | none => (if noStd then [] else [VName.std])
       | some t => (viewsByTime t q).map VName.tv ++ (if noStd then [] else [VName.std])) = names
     induction names generalizing vs with
     | nil => simpa using h
